@@ -227,18 +227,18 @@ def c04(k, ctx):
 
 
 def c03(k, ctx):
-    ctx.rule = ("Decode cases: the real generic flooding / horizontal-layered decoder with the checker-supplied exact integer min-sum (value types scaled x3/x5/x7) on forests and "
+    ctx.rule = ("Dec8 cases: the 20 factory-built 8-bit decoders (3 calls per object) on 1/8-grid LLRs vs BP.tla composed with Arith.tla; Decode cases: the real generic flooding / horizontal-layered decoder with the checker-supplied exact integer min-sum (value types scaled x3/x5/x7) on forests and "
                 "loopy graphs up to 6x12, integer LLRs in +-2..+-40, limits {0,1,2,3,4,6,10}; Post cases: Phif64/Tanhf64/Phif32/Tanhf32 forced to iterate diameter(+3) times on "
                 "random forests (<= 8 checks, <= 12 variables) vs brute-force posterior; non-trivial = distinct Decode cases that ran at least one iteration, plus all Post cases")
     ctx.tlc_mc("MC_BP", "MC_BP_thorough.cfg" if ctx.thorough else "MC_BP.cfg")       # C03Exact: tropical posterior on forests
     ctx.vh("gen", "i2s")
     recs, rej = ctx.validate("Trace_C03", timeout=3000)
-    ctx.require_events("Decode", "Post")
+    ctx.require_events("Decode", "Post", "Dec8")
     for r in recs:
         if r["o"] != "ok":
             continue
         if r["e"] == "Post" or r["iters"] > 0:
-            ctx.nontrivial_keys.add(k.key(r.get("arith", ""), r["sched"], r["rows"], r.get("llrs", r.get("llr_m")), r.get("limit", r.get("its"))))
+            ctx.nontrivial_keys.add(k.key(r.get("arith", ""), r.get("name", ""), r["sched"], r["rows"], r.get("llrs", r.get("llr_m", r.get("x8"))), r.get("limit", r.get("its"))))
     ctx.extra["decode_verdicts"] = {v: sum(1 for r in recs if r["e"] == "Decode" and r.get("verdict") == v) for v in ("ok", "err")}
     ctx.extra["posterior_cases_in_working_range"] = sum(1 for r in recs if r["e"] == "Post" and r["o"] == "ok" and max(r["refc"]) <= (9 if r["f32"] else 25))
     ctx.extra["max_posterior_err_cb"] = {a: max([max(r["err_cb"]) for r in recs if r["e"] == "Post" and r["o"] == "ok" and r["arith"] == a] or [None])
@@ -487,6 +487,88 @@ PIPELINES = {"C20": c20, "C19": c19, "C07": c07, "C06": c06, "C16": c16, "C13": 
 NOT_YET = {}
 
 
+# ------------------------------------------------------------------------------------------------
+# Validation of the machinery itself (./check --selftest): binding demos, oracle qualification.
+# (Negative models are part of every pipeline: ctx.tlc_mc(..., expect_violation=True).)
+def _set(ev, path, fn):
+    cur = ev
+    for p in path[:-1]:
+        cur = cur[p]
+    cur[path[-1]] = fn(cur[path[-1]])
+
+
+def _flipbit(w):
+    w = list(w)
+    w[0] ^= 1
+    return w
+
+
+# property -> (trace spec, cfg, [(event name, predicate on event, path, mutation, what)])
+BINDING = {
+    "C01": ("Trace_C01", "Trace.cfg", [("Decode", lambda e: e["verdict"] == "ok" and e["iters"] > 0, ["word"], _flipbit, "flip a bit of a successful word"),
+                                       ("Decode", lambda e: e["verdict"] == "err" and e["limit"] > 0, ["iters"], lambda x: x - 1, "iteration count of a failure below the limit")]),
+    "C02": ("Trace_C02", "Trace.cfg", [("Enc", lambda e: e.get("acc") and len(e["pairs"]) > 1, ["pairs", 1, "c"], _flipbit, "flip a bit of a codeword"),
+                                       ("Enc", lambda e: e.get("acc") is False, ["acc"], lambda x: True, "claim acceptance of a singular tail")]),
+    "C05": ("Trace_C05", "Trace.cfg", [("Var8", lambda e: len(e["out"]) > 1, ["out", 0, 1], lambda x: x + 1 if x < 127 else x - 1, "one outgoing message off by one"),
+                                       ("Quant8", lambda e: e["cls"] == "fin" and abs(e["fl"]) < 100, ["got"], lambda x: x + 1, "quantiser result off by one")]),
+    "C08": ("Trace_C08", "Trace_C08.cfg", [("Write", lambda e: len(e["lines"]) > 5 and len(e["lines"][4]) > 1, ["lines", 4], lambda ln: list(reversed(ln)), "column list not sorted"),
+                                           ("Parse", lambda e: e.get("pv") == "ok" and e.get("pnc", 0) > 0, ["pnc"], lambda x: x + 1, "parser reports another size")]),
+    "C09": ("Trace_C09", "Trace.cfg", [("Sys", lambda e: e.get("v") == "ok" and e["n"] > e["r"], ["res", 0], lambda r: [c for c in range(9) if c not in r][:max(1, len(r))], "a row of the result changed")]),
+    "C10": ("Trace_C10", "Trace.cfg", [("Call", lambda e: e["step"] >= 1 and e["o"] == "ok", ["res", "word"], _flipbit, "result differs from the fresh decoder")]),
+    "C11": ("Trace_C11", "Trace.cfg", [("Node", lambda e: e["o"] == "ok" and e["lg"][0][1] != -1, ["lg", 0, 1], lambda x: x + 2, "local girth off by two"),
+                                       ("Node", lambda e: e["o"] == "ok" and max(e["rd"]) > 0, ["rd"], lambda d: [x + 2 if x > 0 else x for x in d], "distances off by two")]),
+    "C15": ("Trace_C15", "Trace.cfg", [("Il", lambda e: len(e["y"]) > 3 and e["C"] > 1 and len(e["x"]) // e["C"] > 1, ["y"], lambda y: [y[1], y[0]] + y[2:], "two outputs swapped"),
+                                       ("De", lambda e: e.get("v") == "ok" and 0 in e["pat"] and len(e["y"]) > 0, ["y"], lambda y: [v or 1 for v in y], "removed block not zero")]),
+    "C17": ("Trace_C17", "Trace.cfg", [("Op", lambda e: e["o"] == "ok" and len(e["obs"]["rw"]) > 0, ["obs", "rw", 0], lambda x: x + 1, "row weight off by one")]),
+    "C18": ("Trace_C18", "Trace.cfg", [("Name", lambda e: True, ["show"], lambda x: x + "x", "Display string differs"),
+                                       ("Table", lambda e: True, ["behave", 3, "fp"], lambda x: x[::-1], "a factory decoder behaves differently")]),
+    "C19": ("Trace_C19", "Trace.cfg", [("Decode", lambda e: e["o"] == "ok" and e["ref"]["verdict"] == "ok", ["ret"], lambda x: -1, "success reported as failure"),
+                                       ("Ctor", lambda e: e["o"] == "ok" and e["why"] == "pattern", ["null"], lambda x: False, "malformed pattern accepted")]),
+}
+
+
 def selftest(k):
-    print("selftest: nothing registered yet")
-    return 0
+    """Binding demos: take a passing trace, corrupt ONE field of ONE event, require TLC to reject exactly that case."""
+    import copy, json as _json
+    failures = 0
+    for prop, (spec, cfg, muts) in sorted(BINDING.items()):
+        ctx = k.Ctx(prop, "quick", 4242)
+        path = ctx.vh("gen", "i2s", timeout=3000)
+        evs = [_json.loads(l) for l in open(path) if l.strip()]
+        if prop in ("C10", "C17"):           # stateful trace specs: keep whole cases
+            evs = evs[:3000]
+        else:                               # one event per case: any subset is a valid trace
+            evs = evs[::max(1, len(evs) // 3000)]
+        for (ename, pred, fpath, fn, what) in muts:
+            cand = [n for n, e in enumerate(evs) if e["e"] == ename and e.get("o", "ok") == "ok" and pred(e)]
+            if not cand:
+                print(f"selftest {prop}: no event to corrupt for '{what}'")
+                failures += 1
+                continue
+            n = cand[len(cand) // 2]
+            bad = copy.deepcopy(evs)
+            _set(bad[n], fpath, fn)
+            tp = os.path.join(ctx.work, "corrupt.ndjson")
+            with open(tp, "w") as f:
+                for e in bad:
+                    f.write(_json.dumps(e) + "\n")
+            c2 = k.Ctx(prop, "quick", 4243)
+            c2.traces = [("corrupt", tp)]
+            recs, rej = c2.validate(spec, cfg=cfg)
+            want = bad[n]["i"]
+            got = sorted({r["event"]["li"] for r in rej})
+            ok = got == [want]
+            print(f"selftest {prop}: '{what}' -> rejected cases {got[:5]} (corrupted case {want}) {'OK' if ok else 'FAILED'}")
+            failures += 0 if ok else 1
+            import shutil
+            shutil.rmtree(c2.work, ignore_errors=True)
+        import shutil
+        shutil.rmtree(ctx.work, ignore_errors=True)
+    # oracle qualification
+    ctx = k.Ctx("SELFTEST", "quick", 1)
+    ctx.vh("gen", "oracle", prop="SELFTEST")
+    recs, rej = ctx.validate("Trace_Selftest")
+    print(f"selftest oracles: {len(recs)} cases, {len(rej)} disagreements with GF2!Rank / Tanner!Girth / tanh product")
+    failures += len(rej)
+    print("selftest:", "all passed" if failures == 0 else f"{failures} FAILED")
+    return 0 if failures == 0 else 2
